@@ -153,7 +153,10 @@ PROPS = {
         k_quick=[], k_thorough=[],
     ),
     'C20': dict(
-        v=[('u_tagtype', ['TagType::from', 'impl&%*::from', 'lemma_tagtype_roundtrip', 'lemma_tagtype_injective', 'tagtype_roundtrip_exec'])],
+        v=[('u_tagtype', ['TagType::from', 'impl&%*::from', 'lemma_tagtype_roundtrip', 'lemma_tagtype_injective', 'tagtype_roundtrip_exec']),
+           # "classification of framebuffer type bytes is total and matches the documented values": all 256 bytes, and the
+           # public classification path (buffer_type) is a function of the type byte alone
+           ('u_mb2_fb', ['FramebufferTypeId::try_from', 'FramebufferTag::buffer_type', 'Reader::*'])],
         k_quick=['k_tagtype_roundtrip_all_u32', 'k_tagtype_id_wrapper_commutes', 'k_tagtype_equalities_agree', 'k_tagtype_custom_noncanonical', 'k_mbi_magic'],
         k_thorough=[],
     ),
@@ -339,6 +342,11 @@ PROPS['C16']['v'] = [('u_mb2_dstlen', ['*Tag::dst_len', '*_BASE_SIZE', 'DynSized
                      ('u_hdr_builder', ['*HeaderTag::dst_len', 'INFOREQ_BASE_SIZE', 'DynSizedStructure::dst_len',
                                         'HeaderTagHeader::set_size', 'HeaderTagHeader::payload_len',
                                         'Multiboot2BasicHeader::set_size', 'Multiboot2BasicHeader::payload_len'])]
+# C04: the typed getters select by `typ == T::ID` (TagTypeId::eq / TagType::eq, proved) and the framebuffer
+# colour information is decoded by buffer_type + Reader (proved for ALL palette lengths; the Kani harness bounds n <= 4)
+PROPS.setdefault('C04', dict(v=[], k_quick=[], k_thorough=[]))
+PROPS['C04']['v'] = [('u_mb2_fb', ['FramebufferTypeId::try_from', 'FramebufferTag::buffer_type', 'Reader::*']),
+                     ('u_mb2_core', ['TagTypeId::eq', 'TagType::eq'])]
 PROPS['C17']['v'] = [('u_mb2_dstlen', ['CommandLineTag::dst_len', 'BootLoaderNameTag::dst_len', 'ModuleTag::dst_len', 'COMMANDLINETAG_BASE_SIZE', 'BOOTLOADERNAMETAG_BASE_SIZE', 'MODULETAG_BASE_SIZE',
                                        'CommandLineTag::cmdline', 'BootLoaderNameTag::name', 'ModuleTag::cmdline'])]
 PROPS.setdefault('C11', dict(v=[], k_quick=[], k_thorough=[]))
